@@ -782,6 +782,29 @@ func main() {
 		}
 		sum.OracleFails = append(sum.OracleFails, f)
 	}
+	// bare `if:` conditions (no placeholder) that are sentences of the language and hold the characters
+	// `${{` inside a string literal: accepted as they are
+	for _, cond := range []string{"contains(github.event.head_commit.message, '${{')", "github.ref == '${{ x'", "startsWith('${{', 'a') || endsWith(github.ref, '${{ ')", "'${{' != github.sha"} {
+		for _, lvl := range []string{"    if: ", "    steps:\n      - run: echo\n        if: "} {
+			src := "on: push\njobs:\n  j:\n    runs-on: ubuntu-latest\n" + lvl + "\"" + cond + "\"\n"
+			if !strings.Contains(lvl, "steps") {
+				src += "    steps:\n      - run: echo\n"
+			}
+			errs, err := newLinter().Lint("<stdin>", []byte(src), nil)
+			sum.Dist["bare_if_with_placeholder_opening_in_a_string"]++
+			got := ""
+			bad := err != nil
+			for _, e := range errs {
+				got += e.Error() + " | "
+				if e.Kind == "expression" {
+					bad = true
+				}
+			}
+			if bad {
+				sum.OracleFails = append(sum.OracleFails, failure{What: "a bare if: condition that is a sentence of the language (the characters ${{ stand inside a string literal) draws an expression diagnostic", Key: "bare-if:placeholder-opening-in-string", Input: cond, Kind: "bare-if", Impl: got, Want: "no expression diagnostic"})
+			}
+		}
+	}
 	sum.Extra["oracle_failures_total"] = len(fails)
 	sum.Extra["oracle_failures_by_class"] = perKey
 	sum.Extra["model_evaluated"] = modelEvaluated
